@@ -81,13 +81,43 @@ def call(abbr, user):
             return ('parse-error', type(e).__name__)
 
 
+def pristine_results():
+    """Result of every menu call in a process that has made NO expand() call before it (fork per call after the imports).
+    Computing the references one after the other in one process would let a leak between calls poison the reference itself."""
+    import json
+    import os
+    import emmet  # noqa: F401  (imported before forking)
+    M = menu()
+    out = []
+    for i in range(len(M)):
+        r, w = os.pipe()
+        pid = os.fork()
+        if pid == 0:
+            try:
+                os.close(r)
+                res = call(M[i][0], copy.deepcopy(M[i][1]))
+                os.write(w, json.dumps(list(res)).encode())
+            finally:
+                os._exit(0)
+        os.close(w)
+        data = b''
+        while True:
+            chunk = os.read(r, 65536)
+            if not chunk:
+                break
+            data += chunk
+        os.close(r)
+        os.waitpid(pid, 0)
+        out.append(tuple(json.loads(data.decode())))
+    return out
+
+
 def mk_history(K, first):
     import emmet
     from emmet.config import Config
     M = menu()
     N = len(M)
-    with untraced():
-        reference = [call(a, copy.deepcopy(u)) for (a, u) in M]     # pristine: before any history in this process
+    reference = pristine_results()     # each menu call in its own freshly forked process: no earlier call of any kind
 
     def harness(wrong):
         def h(h2: int, h3: int, probe: int, share_cache: bool, share_cfg: bool, as_config: bool):
